@@ -429,8 +429,12 @@ func (u *upstream) doSlotsRefresh() error {
 	}
 	u.MakeRequestToHost(addr, req)
 
-	// wait done
-	req.Wait()
+	// wait done, the backend may never answer.
+	select {
+	case <-req.done:
+	case <-u.quit:
+		return errors.New(upstreamExited)
+	}
 	resp := req.Response()
 	if resp.Type == Error {
 		return errors.New(string(resp.Text))
